@@ -332,6 +332,55 @@ def family_setup(rng, fam):
     return ev, temps, keys, reads
 
 
+def emod_sweep_cases():
+    """Exhaustive small scope for the emodulus recipes: every combination of
+    {medium absent/known/"other", temperature, viscosity, viscosity model,
+    temp feature} (lut set) x every single change of one ingredient (set to a
+    new value, set when absent, delete when present), as the history
+    [read; change; read]."""
+    ek = {n: kid("calculation", "emodulus " + n) for n in (
+        "lut", "medium", "temperature", "viscosity", "viscosity model")}
+    base = [[kid("imaging", "pixel size"), 1], [kid("setup", "flow rate"), 1],
+            [kid("setup", "channel width"), 1], [ek["lut"], 3]]
+    fe = F_ID["emodulus"]
+    cases = []
+    for med in (None, 3, 4):
+        for tmp in (None, 2):
+            for visc in (None, 3):
+                for vm in (None, 1):
+                    for has_temp in (False, True):
+                        cfg0 = list(base)
+                        for k, v in ((ek["medium"], med),
+                                     (ek["temperature"], tmp),
+                                     (ek["viscosity"], visc),
+                                     (ek["viscosity model"], vm)):
+                            if v is not None:
+                                cfg0.append([k, v])
+                        muts = [[0, ek["medium"], 10 if med == 3 else 3],
+                                [0, ek["medium"], 20 if med == 4 else 4],
+                                [0, ek["temperature"], 0 if med != 1 else 5],
+                                [0, ek["temperature"], 7],
+                                [0, ek["viscosity"], 0],
+                                [0, ek["viscosity"], 5],
+                                [0, ek["viscosity model"],
+                                 2 if vm == 1 else 1],
+                                [0, ek["lut"], 1]]
+                        for k, v in ((ek["medium"], med),
+                                     (ek["temperature"], tmp),
+                                     (ek["viscosity"], visc),
+                                     (ek["viscosity model"], vm)):
+                            if v is not None:
+                                muts.append([1, k, 0])
+                        ev = ["area_um", "deform"] + (
+                            ["temp"] if has_temp else [])
+                        for m in muts:
+                            cases.append(dict(
+                                family="emod-sweep", fmt="dict", events=ev,
+                                temps0=[], cfg0=sorted(cfg0),
+                                ops=[[3, fe, 0], m, [3, fe, 0]]))
+    return cases
+
+
 def gen_case(rng, thorough=False):
     fam = rng.choice(FAMILIES)
     fmt = rng.choice(["dict", "dict", "dict", "hdf5", "child"])
@@ -367,11 +416,13 @@ def gen_case(rng, thorough=False):
                 if k not in cfg0:
                     cfg0[k] = cfg_value_choices(k, rng, counter)
             cfg0.pop(kid("setup", "chip region"), None)
-            if rng.random() < 0.4:
+            other = rng.random() < 0.4
+            if other:
                 cfg0[ek["medium"]] = rng.choice(OTHER_MEDIUM_IDS)
-            for name in ("temperature", "viscosity", "viscosity model",
-                         "medium"):
-                if rng.random() < 0.3:
+            for name, pdrop in (("temperature", 0.5), ("viscosity", 0.25),
+                                ("viscosity model", 0.25),
+                                ("medium", 0.05 if other else 0.3)):
+                if rng.random() < pdrop:
                     cfg0.pop(ek[name], None)
             if "temp" in temps and "temp" not in ev and rng.random() < 0.6:
                 ev.append("temp")
@@ -386,6 +437,22 @@ def gen_case(rng, thorough=False):
     mutated = False
     for _ in range(nops):
         r = rng.random()
+        if rng.random() < 0.12:
+            # staleness probe: read, change exactly one ingredient, read
+            f = F_ID[rng.choice(reads)]
+            ops.append([3, f, 0])
+            if temps and rng.random() < 0.3:
+                t = rng.choice(temps)
+                tcounter[t] = tcounter.get(t, 0) + 1
+                ops.append([2, F_ID[t], tcounter[t]])
+            else:
+                k = rng.choice(hot) if hot and rng.random() < 0.7 \
+                    else rng.choice(keys)
+                ops.append([0, k, cfg_value_choices(k, rng, counter)])
+                present.add(k)
+            ops.append([3, f, 0])
+            mutated = False
+            continue
         if mutated and r < 0.6:
             # read right after a change: where stale values show
             ops.append([3, F_ID[rng.choice(reads)], 0])
@@ -754,6 +821,8 @@ HEADER = ("From Coq Require Import ZArith List.\nImport ListNotations.\n"
 
 
 def pairs(xs):
+    if not xs:
+        return "(@nil (Z * Z))"
     return "[" + "; ".join("(%s, %s)" % (common.zlit(a), common.zlit(b))
                            for a, b in xs) + "]"
 
@@ -861,6 +930,13 @@ def run(run):
     run.count("corpus", len(cases))
     while len(cases) < ncases:
         cases.append(gen_case(run.rng, run.thorough))
+    sweep = emod_sweep_cases()
+    if not run.thorough:
+        # a third of the exhaustive emodulus sweep per quick run (all of it
+        # in the thorough tier and in search())
+        sweep = sweep[run.seed % 3::3]
+    run.count("emod-sweep", len(sweep))
+    cases += sweep
     results = run_cases(run, cases)
     impl = []
     for c, res in zip(cases, results):
@@ -1191,8 +1267,8 @@ def shrink(run, failure):
 def search(run, broken):
     """proof / correspondence broken and the oracle quiet: larger sweep of
     the oracle on the implementation"""
-    n = 4000 if run.thorough else 1200
-    cases = [gen_case(run.rng, True) for _ in range(n)]
+    n = 4000 if run.thorough else 1000
+    cases = emod_sweep_cases() + [gen_case(run.rng, True) for _ in range(n)]
     results = run_cases(run, cases)
     for c, res in zip(cases, results):
         if res[0] == "crash":
